@@ -15,21 +15,26 @@ From SV Require Import SM.FsChain SM.FsChainProofs SM.FsChainRel SM.FsChainCompo
 Import ListNotations.
 Open Scope N_scope.
 
-Definition lists_sound (folder : str) (m : member) : Prop :=
+(** [fk] is the folded key of the folder that is meant (for a folder argument spelt with redundant separators or "."
+    segments: the key of its clean spelling) *)
+Definition lists_sound_at (fk : str) (folder : str) (m : member) : Prop :=
   forall e, In e (m_walk m (full_name (m_prefix m) folder)) ->
     clean_name (drop_segs (fst e) (m_prefix m)) = true
-    /\ path_prefix (nkey folder) (nkey (drop_segs (fst e) (m_prefix m)))
+    /\ path_prefix fk (nkey (drop_segs (fst e) (m_prefix m)))
     /\ asks (drop_segs (fst e) (m_prefix m)) m = Some e.
-Definition lists_complete (folder : str) (m : member) : Prop :=
-  forall r g, clean_name r = true -> path_prefix (nkey folder) (nkey r) -> asks r m = Some g ->
+Definition lists_complete_at (fk : str) (folder : str) (m : member) : Prop :=
+  forall r g, clean_name r = true -> path_prefix fk (nkey r) -> asks r m = Some g ->
     In g (m_walk m (full_name (m_prefix m) folder))
     /\ clean_name (drop_segs (fst g) (m_prefix m)) = true
     /\ nkey (drop_segs (fst g) (m_prefix m)) = nkey r.
-Definition walk_member_ok (folder : str) (m : member) : Prop := lists_sound folder m /\ lists_complete folder m.
+Definition walk_member_ok_at (fk folder : str) (m : member) : Prop := lists_sound_at fk folder m /\ lists_complete_at fk folder m.
+Definition lists_sound (folder : str) (m : member) : Prop := lists_sound_at (nkey folder) folder m.
+Definition lists_complete (folder : str) (m : member) : Prop := lists_complete_at (nkey folder) folder m.
+Definition walk_member_ok (folder : str) (m : member) : Prop := walk_member_ok_at (nkey folder) folder m.
 
 (** * the composition, from the interface alone *)
-Theorem chain_walk_lookup_closed_gen dops ms folder x :
-  dedup_ops_ok dops = true -> Forall (walk_member_ok folder) ms ->
+Theorem chain_walk_lookup_closed_at fk dops ms folder x :
+  dedup_ops_ok dops = true -> Forall (walk_member_ok_at fk folder) ms ->
   In x (chain_walk RelDropSegs dops ms folder) ->
   chain_get ms (fst x) = Some (snd x).
 Proof.
@@ -52,6 +57,12 @@ Proof.
   - change (apply_ops dops (drop_segs (fst g) (m_prefix m')) = apply_ops dops r).
     rewrite (dedup_key dops _ Hd Hclr'), (dedup_key dops r Hd Hclr). exact Hkr'.
 Qed.
+
+Theorem chain_walk_lookup_closed_gen dops ms folder x :
+  dedup_ops_ok dops = true -> Forall (walk_member_ok folder) ms ->
+  In x (chain_walk RelDropSegs dops ms folder) ->
+  chain_get ms (fst x) = Some (snd x).
+Proof. apply chain_walk_lookup_closed_at. Qed.
 
 (** * folding backends satisfy the interface *)
 Lemma sound_member_walk_ok m folder : sound_member m -> okp folder -> walk_member_ok folder m.
